@@ -23,7 +23,7 @@ ASSUMPTIONS = [
 ]
 OUTSIDE = ["catastrophic cancellation in np.var", "large treatment spaces (guard > 1e7 combinations)"]
 RULE = "id patterns and chain labellings are solver-enumerated; predictions and observations are symbolic reals."
-BUDGET_S = {"quick": 240, "thorough": 1500}
+BUDGET_S = {"quick": 600, "thorough": 3000}
 TASK_QUOTA = 150
 NUMERIC_FIRST = 4
 SOLVER_TIMEOUT_MS = 15000
